@@ -7,6 +7,7 @@ from wa.pathsym import eval_path, cond_truth
 
 CTS = "time_control::GameTime::calculate_time_slice"
 FIND = "uci::find_and_play_best_move"
+LOOP_FN = "uci::play_game_uci"
 PGC = "uci::parse_go_command"
 GT = "time_control::GameTime"
 OOT = "utils::out_of_time"
@@ -192,22 +193,46 @@ def r9_45(ctx):
     b = f.body(FIND)
     ctx.note_fn(FIND)
     ex = Exprs(b)
-    calls = b.calls_to(CTS)
-    if len(calls) != 1:
-        raise ShapeNotRecognised("find_and_play_best_move: %d calls of calculate_time_slice" % len(calls))
-    bb, t = calls[0]
-    args = ex.call_args(bb)
     # the board parameter, borrowed shared or exclusively: what matters is whose field is read
     bp = [i for i in range(1, b.arg_count + 1) if b.local_ty(i) in ("&mut board::BoardState", "&board::BoardState", "board::BoardState")]
-    col = strip_refs(args[1])
-    base = strip_refs(col[1]) if col[0] == "field" else None
-    ok = col[0] == "field" and col[2] == "to_move" and len(bp) == 1 and base in (("arg", bp[0]),) + ((col[1],) if col[1][0] == "mem" and col[1][1] == bp[0] else ())
-    ctx.ob("find_and_play_best_move:slice-for-side-to-move", ok, b.where(b.term_loc(bb)),
-           "colour argument is `%s`; must be the side to move of the board being searched" % show_expr(args[1], b))
-    recv = strip_refs(args[0])
+    calls = b.calls_to(CTS)
+    if len(calls) == 1:
+        bb, t = calls[0]
+        args = ex.call_args(bb)
+        where = b.where(b.term_loc(bb))
+        col = strip_refs(args[1])
+        base = strip_refs(col[1]) if col[0] == "field" else None
+        ok = col[0] == "field" and col[2] == "to_move" and len(bp) == 1 and base in (("arg", bp[0]),) + ((col[1],) if col[1][0] == "mem" and col[1][1] == bp[0] else ())
+        shown = show_expr(args[1], b)
+        recv = strip_refs(args[0])
+        shown_recv = show_expr(recv, b)[:80]
+        slice_e = ex.call_expr(t, b.term_loc(bb))
+    elif not calls and f.has_body(LOOP_FN) and len(f.body(LOOP_FN).calls_to(FIND)) == 1:
+        # the slice is computed by the caller and handed in: the same two facts are decided at the
+        # call site (colour = side to move of the very board that is passed on to be searched)
+        lb = f.body(LOOP_FN)
+        ctx.note_fn(LOOP_FN)
+        lex = Exprs(lb)
+        fbb, ft = lb.calls_to(FIND)[0]
+        fargs = lex.call_args(fbb)
+        ks = [i for i, a in enumerate(fargs) if strip_refs(a)[0] == "call" and strip_refs(a)[1] == CTS]
+        if len(ks) != 1 or len(bp) != 1:
+            raise ShapeNotRecognised("find_and_play_best_move receives no time slice computed by calculate_time_slice")
+        cts = strip_refs(fargs[ks[0]])
+        args = cts[2]
+        where = lb.where(cts[3]) if cts[3] else lb.where(lb.term_loc(fbb))
+        col = strip_refs(args[1])
+        ok = col[0] == "field" and col[2] == "to_move" and strip_refs(col[1]) == strip_refs(fargs[bp[0] - 1])
+        shown = show_expr(args[1], lb)
+        recv = strip_refs(args[0])
+        shown_recv = show_expr(recv, lb)[:80]
+        slice_e = ("arg", ks[0] + 1)
+    else:
+        raise ShapeNotRecognised("find_and_play_best_move: %d calls of calculate_time_slice" % len(calls))
+    ctx.ob("find_and_play_best_move:slice-for-side-to-move", ok, where,
+           "colour argument is `%s`; must be the side to move of the board being searched" % shown)
     ok = recv[0] == "call" and recv[1] == PGC
-    ctx.ob("find_and_play_best_move:slice-from-this-go", ok, b.where(b.term_loc(bb)), "receiver is `%s`; must be the parsed clock of this go command" % show_expr(recv, b)[:80])
-    slice_e = ex.call_expr(t, b.term_loc(bb))
+    ctx.ob("find_and_play_best_move:slice-from-this-go", ok, where, "receiver is `%s`; must be the parsed clock of this go command" % shown_recv)
     startp = [i for i in range(1, b.arg_count + 1) if b.local_ty(i) == "std::time::Instant"]
     # polling loop deadline
     n = 0
@@ -267,7 +292,9 @@ def r9_6(ctx):
     f = ctx.facts
     b = f.body(PGC)
     ctx.note_fn(PGC)
-    ex = Exprs(b)
+    from wa import ucishape
+    sc, ex = ucishape.token_scan(b)
+    tests = ucishape.keyword_tests(sc)
     fields = f.struct_fields(GT)
     got = {}
     gts = [l for l in range(len(b.locals)) if b.local_ty(l) == GT]
@@ -278,6 +305,7 @@ def r9_6(ctx):
         if p["local"] in gts and p["proj"] and p["proj"][0]["k"] == "field":
             fld = p["proj"][0]["name"]
             names = []
+            name_offs = set()
             for d, vals, excl, s, tg in dominating_facts(b, ex, loc[0]):
                 truth = (vals is None and excl == [0]) or vals == [1]
                 d0 = strip_refs(d)
@@ -285,18 +313,13 @@ def r9_6(ctx):
                     for k in (strip_refs(d0[2]), strip_refs(d0[3])):
                         if k[0] == "str":
                             names.append(k[1])
-            # the stored value is parsed from the token after the name
+                            if k[1] in tests and tests[k[1]][0] == s:
+                                name_offs |= set(tests[k[1]][3])
+            # the stored value is parsed from the token after the name: token positions are those of
+            # the scan (index, iterator, peek or window), not of one spelling of `commands[i + 1]`
             e = ex.rvalue(st["rv"], loc)
-            parsed = False
-            from wa.linear import linear
-            for x in subexprs(e):
-                if x[0] == "call" and x[1].endswith("<impl str>::parse"):
-                    for y in subexprs(x[2][0]):
-                        idx = y[2] if y[0] == "index" else (y[2][1] if y[0] == "call" and y[1].endswith("::index") and len(y[2]) == 2 else None)
-                        if idx is not None:
-                            li = linear(idx)
-                            if li is not None and li[1] == 1 and list(li[0].values()) == [1]:
-                                parsed = True
+            toks = [sc.token_offsets(a) for a in ucishape.parsed_tokens(f, e)]
+            parsed = len(toks) == 1 and toks[0] is not None and None not in toks[0] and None not in name_offs and bool(name_offs) and toks[0] == {o + 1 for o in name_offs}
             got.setdefault(fld, []).append((names, parsed, loc))
     for fld in ("wtime", "btime", "winc", "binc", "movestogo"):
         lst = got.get(fld, [])
